@@ -191,6 +191,12 @@ class AtP:
                     return self.run(g, n, rest, depth + 1)
                 if name == 'atPointerImpl':
                     return self.run(self.f_impl, n, list(args), depth + 1)
+                g_ = self.facts.by_id.get(e.get('cid'))
+                if g_ is not None and g_.blocks and depth < 6:
+                    # a private helper of the node class: interpreted from its body, under whatever name it has
+                    rest_ = args[1:] if e.get('opcall') else list(args)
+                    if len(g_.params) == len(rest_):
+                        return self.run(g_, n, rest_, depth + 1)
                 raise Unsupported('node accessor %s' % name)
             if isinstance(o, PVec):
                 if name in ('begin', 'cbegin'):
